@@ -263,6 +263,7 @@ def ops_for(cfg, tier="quick"):
     if cfg["gen"] != "IncomprRandMeth" and d > 1:
         A({"k": "model", "attr": "anis", "v": [0.75, 0.6][: d - 1]})
         A({"k": "model", "attr": "anis", "v": list(BASE_ANIS[d])})
+        A({"k": "model", "attr": "anis", "v": [1.0] * (d - 1)})  # anisotropic -> isotropic
         if cfg.get("rotate", True):
             A({"k": "model", "attr": "angles", "v": [1.0, 0.5, -0.4][: len(BASE_ANGLES[d])]})
     for name, v in cfg.get("opt_ops", []):
